@@ -59,12 +59,15 @@ def point(pubkey_: bytes) -> typing.Tuple[int]:
     x = int.from_bytes(payload[:32], "big")
     if version == 2:
         # compressed, y even
+        assert len(pubkey_) == 33, "invalid compressed pubkey length"
         y = [i for i in bits.ecmath.y_from_x(x) if not i % 2][0]
     elif version == 3:
         # compressed, y odd
+        assert len(pubkey_) == 33, "invalid compressed pubkey length"
         y = [i for i in bits.ecmath.y_from_x(x) if i % 2][0]
     elif version == 4:
         # uncompressed
+        assert len(pubkey_) == 65, "invalid uncompressed pubkey length"
         y = int.from_bytes(payload[32:], "big")
     else:
         raise ValueError(f"unrecognized version: {version}")
